@@ -121,11 +121,7 @@ pub fn safety_check(ctx: &mut Ctx, x: &[u8], kind: &str) -> Res {
                 .zip(m.values().iter())
                 .any(|(t, v)| t.is_nested() && Msg::decode_known(v).is_err());
             match no_unwind(|| format!("{}", m)) {
-                Ok(s) => {
-                    if !s.starts_with("RtMessage|") {
-                        return ctx.fail("display-garbage", format!("Display returned {:?}", s));
-                    }
-                }
+                Ok(_) => {} // what it prints is not part of the property; it has to return
                 Err(p) => {
                     return ctx.fail(
                         format!("display-panic|{}", panic_site(&p)),
@@ -301,11 +297,12 @@ fn api_sequence(ctx: &mut Ctx, ops: &Vec<ApiOp>) -> Res {
                     }
                 }
                 ApiOp::PaddingLen => {
+                    // a helper outside the property: only its documented purpose is checked (a message that is already
+                    // >= 1 KiB needs no padding; otherwise the padding fits into 1 KiB) and that it disturbs nothing
                     let size = model.encode().len();
-                    let want = if size >= 1024 { 0 } else if model.fields.len() == 1 { 1024 - size - 4 } else { 1024 - size };
                     let got = m.calculate_padding_length();
-                    if got != want {
-                        return Err(format!("calculate_padding_length() = {} for a {}-byte message with {} fields, expected {}", got, size, model.fields.len(), want));
+                    if (size >= 1024 && got != 0) || (size < 1024 && got > 1024) {
+                        return Err(format!("calculate_padding_length() = {} for a {}-byte message", got, size));
                     }
                 }
                 ApiOp::Clear => {
@@ -660,6 +657,57 @@ fn nested_bytes(c: &NestedCase) -> Vec<u8> {
     m.encode()
 }
 
+/// `depth` single-field messages nested inside each other (CERT{DELE{SREP{CERT{...}}}}), innermost value 4 bytes:
+/// 8 bytes per level, so 8190 levels fit the 64 KiB the property quantifies over
+pub fn nested_chain(depth: usize) -> Vec<u8> {
+    let mut cur = vec![1u8, 2, 3, 4];
+    for d in 0..depth {
+        let t = [rc::SREP, rc::DELE, rc::CERT][d % 3];
+        cur = Msg::new().with(t, &cur).encode();
+    }
+    cur
+}
+
+#[derive(Debug, Clone, Serialize, Deserialize)]
+pub struct DepthCase {
+    pub depth: u32,
+}
+
+/// Display of very deep nesting is probed in a child process (a stack overflow is a signal, not an unwind)
+fn deep_display(ctx: &mut Ctx, c: &DepthCase) -> Res {
+    ctx.eval();
+    let exe = std::env::current_exe().unwrap();
+    let out = std::process::Command::new(exe).args(["probe-display", &c.depth.to_string()]).env("RUST_BACKTRACE", "0").stdin(std::process::Stdio::null()).output();
+    let out = match out {
+        Ok(o) => o,
+        Err(e) => {
+            ctx.inconclusive(format!("probe-display spawn failed: {}", e));
+            return Ok(());
+        }
+    };
+    use std::os::unix::process::ExitStatusExt;
+    let cls = if c.depth < 512 { "<512" } else if c.depth < 2048 { "512..2047" } else { ">=2048" };
+    ctx.class(&format!("deep-display:depth{}", cls));
+    if out.status.code() == Some(0) {
+        if c.depth >= 512 {
+            ctx.nontrivial(&("deep", c.depth));
+        }
+        return Ok(());
+    }
+    if out.status.code() == Some(3) {
+        return ctx.fail("display-panic|deep-nesting", format!("Display panicked for {} nested levels ({} bytes)", c.depth, nested_chain(c.depth as usize).len()));
+    }
+    ctx.fail(
+        "display-stack-overflow|deep-nesting",
+        format!(
+            "formatting an accepted message of {} bytes made of {} nested single-field messages killed the process (signal {:?}) on a thread with the default 2 MiB stack: unbounded recursion in to_string()",
+            nested_chain(c.depth as usize).len(),
+            c.depth,
+            out.status.signal()
+        ),
+    )
+}
+
 // ---------------------------------------------------------------- drivers
 
 #[derive(Debug, Clone, Serialize, Deserialize)]
@@ -754,6 +802,9 @@ pub fn run(mode: Mode, ctx: &mut Ctx) -> Vec<Violation> {
             }),
             |ctx, c| check(mode, ctx, &c.bytes.0, "count-arith"),
         ));
+        // deep nesting up to what fits into 64 KiB (8190 levels), one child process per depth
+        let depths: Vec<u32> = vec![1, 3, 8, 64, 511, 512, 1000, 2047, 2048, 3000, 4096, 6000, 8189, 8190];
+        out.extend(run_enum(ctx, "deep-display", depths.len() as u64, |i| DepthCase { depth: depths[i as usize] }, |ctx, c| deep_display(ctx, c)));
         out.extend(run_prop(ctx, "nested-display", t.pick(80_000, 800_000), 2000, nested_case(), |ctx, c| {
             let x = nested_bytes(c);
             ctx.sample("nested", 3, c);
@@ -773,6 +824,7 @@ pub fn replay(mode: Mode, ctx: &mut Ctx, sub: &str, case: &Value) -> Res {
             let x = apply_muts(&base, c.base.fields.len(), &c.muts);
             check(mode, ctx, &x, "replay")
         }),
+        "deep-display" => replay_case::<DepthCase, _>(ctx, case, |ctx, c| deep_display(ctx, c)),
         "nested-display" => replay_case::<NestedCase, _>(ctx, case, |ctx, c| check(mode, ctx, &nested_bytes(c), "replay")),
         _ => Err(viol("bad-replay-file", format!("unknown sub {}", sub))),
     }
